@@ -33,9 +33,9 @@ def parseClass (j : Json) : Except String ClassDef := do
   let methods ← (← getArr j "methods").toList.mapM fun m => do
     let deps ← (← getArr m "deps").toList.mapM fun d => do
       match ← strs d with
+      | [] => throw "dep shape"
       | [p] => pure (Dep.own p)
-      | [a, x] => pure (Dep.sub a x)
-      | _ => throw "dep shape"
+      | ps => pure (Dep.path ps)
     pure ({ name := ← getStr m "name", deps := deps } : MethodDef)
   return { name := ← getStr j "name", params := params, methods := methods, plain := ← strs (← j.getObjVal? "plain") }
 
@@ -91,7 +91,13 @@ def parseOp (s : Side) (j : Json) : Except String Op := do
   | "selAdd" => return .selAdd (← resolveRef s (← j.getObjVal? "o")) (← getStr j "p") (← getInt j "n")
   | "watchPartial" => return .watchPartial (← resolveRef s (← j.getObjVal? "o")) (← getStr j "p") (← resolveRef s (← j.getObjVal? "target")) (← getStr j "cb")
   | "watchSlot" => return .watchSlot (← resolveRef s (← j.getObjVal? "o")) (← getStr j "p") (← resolveRef s (← j.getObjVal? "target")) (← getStr j "cb")
-  | "watch" => return .watch (← resolveRef s (← j.getObjVal? "o")) (← getStr j "p") (← resolveRef s (← j.getObjVal? "target")) (← getStr j "cb")
+  | "watch" => return .watch (← resolveRef s (← j.getObjVal? "o")) (← strs (← j.getObjVal? "ps")) (← resolveRef s (← j.getObjVal? "target")) (← getStr j "cb")
+  | "update" =>
+    let kvs ← (← getArr j "kvs").toList.mapM fun p => do
+      let a ← p.getArr?
+      if a.size != 2 then throw "update pair expected"
+      pure (← a[0]!.getStr?, ← parseArg s a[1]!)
+    return .update (← resolveRef s (← j.getObjVal? "o")) kvs
   | o => throw s!"unknown op {o}"
 
 def errName : Err → String
@@ -126,7 +132,8 @@ def jVal : SVal → Json
   | .obj o => Json.mkObj [("o", toJson o)]
 
 def jW (wt : SWatcher) : Json :=
-  Json.arr #[toJson wt.inst, Json.str wt.kind, toJson wt.owner, Json.str wt.method, jOpt jChanged wt.changed, toJson wt.precedence]
+  Json.arr #[toJson wt.inst, Json.str wt.kind, toJson wt.owner, Json.str wt.method, jOpt jChanged wt.changed, toJson wt.precedence,
+             jOpt (fun (cb : Nat × Option String) => Json.arr #[toJson cb.1, jOpt Json.str cb.2]) wt.callback]
 
 def jObj (o : SObj) : Json := Json.mkObj [
   ("cls", Json.str o.cls),
@@ -135,8 +142,7 @@ def jObj (o : SObj) : Json := Json.mkObj [
       Json.arr #[Json.str n, jOpt jPair b, Json.bool c, Json.arr (sw.map jW).toArray]).toArray),
   ("sel", Json.arr (o.sel.map fun (n, own, os, ns) => Json.arr #[Json.str n, Json.bool own, jInts os, jInts ns]).toArray),
   ("attrs", Json.arr (o.attrs.map fun (n, v) => Json.arr #[Json.str n, jVal v]).toArray),
-  ("watchers", Json.arr (o.watchers.map fun (n, ws) => Json.arr #[Json.str n, Json.arr (ws.map fun wt =>
-      Json.arr #[toJson wt.inst, Json.str wt.kind, toJson wt.owner, Json.str wt.method, jOpt jChanged wt.changed, toJson wt.precedence]).toArray]).toArray),
+  ("watchers", Json.arr (o.watchers.map fun (n, ws) => Json.arr #[Json.str n, Json.arr (ws.map jW).toArray]).toArray),
   ("dyn", Json.arr (o.dyn.map fun (n, ws) => Json.arr #[Json.str n, Json.arr (ws.map fun d =>
       Json.arr #[toJson d.inst, toJson d.owner, Json.str d.method, jOpt jChanged d.changed, Json.bool d.found]).toArray]).toArray)]
 
@@ -179,8 +185,13 @@ def pChanged (j : Json) : Except String (Option (List (String × Option (List St
 
 def pW (x : Json) : Except String SWatcher := do
   let q ← x.getArr?
+  let cb : Option (Nat × Option String) ← match q[6]! with
+    | .null => pure none
+    | v => do
+      let a ← v.getArr?
+      pure (some (← a[0]!.getNat?, a[1]!.getStr?.toOption))
   pure ({ inst := ← q[0]!.getNat?, kind := ← q[1]!.getStr?, owner := ← q[2]!.getNat?, method := ← q[3]!.getStr?,
-          changed := ← pChanged q[4]!, precedence := ← q[5]!.getInt? } : SWatcher)
+          changed := ← pChanged q[4]!, precedence := ← q[5]!.getInt?, callback := cb } : SWatcher)
 
 def pObj (j : Json) : Except String SObj := do
   let values ← (← getArr j "values").toList.mapM fun e => do
@@ -202,10 +213,7 @@ def pObj (j : Json) : Except String SObj := do
     pure (← a[0]!.getStr?, ← pVal a[1]!)
   let watchers ← (← getArr j "watchers").toList.mapM fun e => do
     let a ← e.getArr?
-    let ws ← (← a[1]!.getArr?).toList.mapM fun x => do
-      let q ← x.getArr?
-      pure ({ inst := ← q[0]!.getNat?, kind := ← q[1]!.getStr?, owner := ← q[2]!.getNat?, method := ← q[3]!.getStr?,
-              changed := ← pChanged q[4]!, precedence := ← q[5]!.getInt? } : SWatcher)
+    let ws ← (← a[1]!.getArr?).toList.mapM pW
     pure (← a[0]!.getStr?, ws)
   let dyn ← (← getArr j "dyn").toList.mapM fun e => do
     let a ← e.getArr?
@@ -263,6 +271,7 @@ def handle (req : Json) : Except String Json := do
   let troot ← resolveRef twin rootJ
   let origAt := snapshot main.w root
   if !wfB main.w then throw "model world is not well-formed (a reference points outside the world)"
+  if !noDupB main.w then throw "model world holds two equal watchers in one list (outside the fragment: the generator must not register a watcher twice)"
   if !ownWatchersB main.w then throw "model world is not well-formed (a watcher is registered on another object than its inst)"
   let mut branches : List String := []
   let model : Obs ← match copyGraph pol main.w root with
